@@ -89,7 +89,7 @@ def sa_game(rng: random.Random, n: int, family: str) -> tuple[list[float], bool]
     return [float(x) for x in v], family in EXACT_SA_FAMILIES
 
 
-EXACT_SAM_FAMILIES = ("sam_int", "sam_dyadic", "sam_budget", "sam_cover")
+EXACT_SAM_FAMILIES = ("sam_int", "sam_dyadic", "sam_budget", "sam_cover", "sam_offset_int")
 FLOAT_SAM_FAMILIES = ("sam_float",)
 SAM_FAMILIES = EXACT_SAM_FAMILIES + FLOAT_SAM_FAMILIES
 
@@ -112,6 +112,18 @@ def sam_game(rng: random.Random, n: int, family: str) -> tuple[list[float], bool
                 if m[s ^ (1 << i)] > m[s]:
                     m[s] = m[s ^ (1 << i)]
         f = _closure_min(n, m)
+    elif family == "sam_offset_int":
+        # huge common cost plus small integer differences: |v| ~ 1e7 times the interval widths
+        w = [rng.randint(1, 20) for _ in range(size)]
+        w[0] = 0
+        m = list(w)
+        for s in sorted(range(size), key=popcount):
+            for i in members(s):
+                if m[s ^ (1 << i)] > m[s]:
+                    m[s] = m[s ^ (1 << i)]
+        base = rng.choice([10**6, 10**7])
+        f = [0] + [base + x for x in _closure_min(n, m)[1:]]
+        f = _closure_min(n, f)
     elif family == "sam_budget":
         k = rng.randint(1, n)
         f = [min(k, popcount(s)) for s in range(size)]
